@@ -62,3 +62,40 @@ def install(reg):
         ex.rng_log.append(("choices", r)); ex.assumptions.add("random.choices(population, weights, k) returns k members of the population (drawn in proportion to the weights: assumed, not re-tested)")
         return out
     reg.call_hooks.append(choices)
+
+
+def params_record(reg, enum_name, fields, typename=None):
+    """A parameter dictionary keyed by the members of an Enum is modelled as a record: one field per member plus a presence flag.
+    fields: {MEMBER: Ty}.  Recognised: params[Enum.MEMBER] (KeyError when absent), Enum.MEMBER in params, params[Enum.MEMBER] = v, params = {}."""
+    tn = typename or f"Params_{enum_name}"
+    fs = {}
+    for k, t in fields.items(): fs[k] = t; fs["has_" + k] = BOOL
+    T = RecT(tn, fs); reg.type(tn, T)
+    def member(node):
+        return node.attr if isinstance(node, ast.Attribute) and isinstance(node.value, ast.Name) and node.value.id == enum_name and node.attr in fields else None
+    def hook(ex, node, st, pc):
+        if isinstance(node, ast.Subscript) and member(node.slice):
+            try: base = ex.expr(node.value, st, list(pc))
+            except Exception: return None
+            if isinstance(base, Val) and base.t == T:
+                k = member(node.slice); ex.branch_exc(pc, z3.Not(T.getf(base.z, "has_" + k)), "KeyError", node); return Val(fields[k], T.getf(base.z, k))
+        if isinstance(node, ast.Compare) and len(node.ops) == 1 and isinstance(node.ops[0], (ast.In, ast.NotIn)) and member(node.left):
+            try: base = ex.expr(node.comparators[0], st, list(pc))
+            except Exception: return None
+            if isinstance(base, Val) and base.t == T:
+                z = T.getf(base.z, "has_" + member(node.left)); return Val(BOOL, z if isinstance(node.ops[0], ast.In) else z3.Not(z))
+        return None
+    reg.call_hooks.append(hook)
+    def stmt(ex, s, st, pc):
+        if isinstance(s, ast.Assign) and len(s.targets) == 1 and isinstance(s.targets[0], ast.Subscript) and member(s.targets[0].slice) and isinstance(s.targets[0].value, ast.Name):
+            cur = st.env.get(s.targets[0].value.id)
+            if isinstance(cur, Val) and cur.t == T:
+                k = member(s.targets[0].slice); v = ex.expr(s.value, st, pc)
+                st.env[s.targets[0].value.id] = Val(T, T.setf(T.setf(cur.z, k, v.z), "has_" + k, z3.BoolVal(True))); return True
+        return None
+    reg.stmt_hooks.append(stmt)
+    def empty_params():
+        v = fresh(T, "params")
+        return v, [z3.Not(T.getf(v.z, "has_" + k)) for k in fields]
+    T.empty = empty_params
+    return T
